@@ -69,6 +69,15 @@ Theorem C05_ows : C05_ows_statement.
 Proof. exact parse_range_ows. Qed.
 Print Assumptions C05_ows.
 
+(* "the same request always gets the same representation": for EVERY registry, Produces list, default type and Accept
+   header (inside the premise or not, q values parsable or not) the entity writer has at most one possible answer.
+   (Before fix F10 the reverse lookup ranged over a map and the model returned the set of possible answers.) *)
+Definition C05_single_answer_statement : Prop :=
+  forall qrank reg produces dflt accept0, length (entity_writer qrank reg produces dflt accept0) <= 1.
+Theorem C05_single_answer : C05_single_answer_statement.
+Proof. exact entity_writer_single. Qed.
+Print Assumptions C05_single_answer.
+
 Example C05_example :
   let qrank (s : str) := if str_eqb s (L "1") then Some 2%Z else if str_eqb s (L "0.9") then Some 1%Z else None in
   let reg := [L "application/json"; L "application/xml"] in
